@@ -28,6 +28,7 @@ use crate::codec::family::Family;
 use crate::common::NumStdDev;
 use crate::error::Error;
 use crate::hll::estimator::HipEstimator;
+use crate::hll::estimator::check_array_fields;
 use crate::hll::get_slot;
 use crate::hll::get_value;
 use crate::hll::pack_coupon;
@@ -391,14 +392,44 @@ impl Array4 {
         estimator.set_kxq1(kxq1);
         estimator.set_out_of_order(ooo);
 
-        Ok(Self {
+        let array = Self {
             lg_config_k,
             bytes: data.into_boxed_slice(),
             cur_min,
             num_at_cur_min,
             aux_map,
             estimator,
-        })
+        };
+
+        // The nibbles and the aux map must describe each other: every AUX_TOKEN nibble has an
+        // exception of at least cur_min + 15, and there are no other exceptions.
+        let k = 1u32 << lg_config_k;
+        let mut tokens = 0u32;
+        for slot in 0..k {
+            if array.get_raw(slot) == AUX_TOKEN {
+                tokens += 1;
+                let exception = array.aux_map.as_ref().and_then(|aux| aux.get(slot));
+                if !exception.is_some_and(|v| u32::from(v) >= u32::from(cur_min) + 15) {
+                    return Err(Error::deserial(format!(
+                        "corrupted aux table: slot {slot} has no exception of at least cur_min + 15"
+                    )));
+                }
+            }
+        }
+        if tokens != aux_count || cur_min > 63 {
+            return Err(Error::deserial(format!(
+                "corrupted: {aux_count} exceptions for {tokens} exception slots, cur_min {cur_min}"
+            )));
+        }
+        check_array_fields(
+            (0..k).map(|slot| array.get(slot)),
+            cur_min,
+            num_at_cur_min,
+            hip_accum,
+            kxq0,
+            kxq1,
+        )?;
+        Ok(array)
     }
 
     /// Serialize Array4 to bytes
